@@ -55,16 +55,19 @@ class Concretizer:
             self._decls = {d.name() for d in self.model.decls()}
         return self._decls
 
-    def entry(self, typ, name, depth=0):
+    def entry(self, typ, name, depth=0, _noov=False):
         """value on entry of the symbolic input `name` of declared type `typ` under the model"""
         ov = self.ex.overrides.get(name)
-        if ov is not None:
+        if ov is not None and not _noov:
             typ = ov
         k = typ[0]
         from . import seqs
         r = seqs.entry_hook(self, typ, name, depth)
         if r is not seqs.NOT_HANDLED:
             return r
+        if k in ('key', 'map', 'set', 'kseq'):   # containers
+            from . import containers
+            return containers.concretize_entry(self, typ, name)
         if k == 'int':
             return _ev(self.model, z3.Int(name))
         if k == 'bool':
@@ -92,7 +95,7 @@ class Concretizer:
             else:
                 i = _ev(self.model, z3.Int(tagname))
                 i = min(max(i, 0), len(alts) - 1)
-            return self.entry(alts[i], name, depth)
+            return self.entry(alts[i], name, depth, _noov=True)
         if k == 'tuple':
             return {'$tuple': [self.entry(t, f'{name}.{i}', depth) for i, t in enumerate(typ[1])]}
         if k == 'obj':
@@ -182,7 +185,21 @@ class Concretizer:
         r = seqs.value_hook(self, v, depth)
         if r is not seqs.NOT_HANDLED:
             return r
+        from . import containers   # containers
+        if isinstance(v, (containers.SymKey,) + containers.SYM):
+            return containers.concretize_value(self, v)
         return {'$opaque': repr(v)}
+
+
+def _gv(v):
+    """model value of a ghost argument/result: int, bool, or the name of a key-universe element"""
+    if z3.is_int_value(v):
+        return v.as_long()
+    if z3.is_true(v):
+        return True
+    if z3.is_false(v):
+        return False
+    return str(v)
 
 
 def ghost_values(model):
@@ -196,12 +213,14 @@ def ghost_values(model):
             if isinstance(fi, z3.FuncInterp):
                 for i in range(fi.num_entries()):
                     e = fi.entry(i)
-                    args = [e.arg_value(j).as_long() for j in range(e.num_args())]
-                    ent['table'].append([args, e.value().as_long()])
+                    args = [_gv(e.arg_value(j)) for j in range(e.num_args())]
+                    ent['table'].append([args, _gv(e.value())])
                 ev = fi.else_value()
                 try:
-                    ent['else'] = ev.as_long()
+                    ent['else'] = _gv(ev)
                 except Exception:
+                    ent['else'] = 0
+                if isinstance(ent['else'], str):
                     ent['else'] = 0
             out[nm[len('ghost_'):]] = ent
     return out
